@@ -566,9 +566,35 @@ class ExprBuilder:
             if "bool" in c:
                 return ("const", 1 if c["bool"] else 0, "bool")
             if "def" in c:
+                v = self.const_int(c["def"])
+                if v is not None:
+                    return ("const", v, c.get("ty"))
                 return ("named", c["def"], c.get("ty"))
             return ("unknown", "const")
         return self.place(body, op_place(op), subst, depth, seen)
+
+    def const_int(self, path, _depth=0):
+        """Integer value of a named const/assoc const, folded from its own MIR body (literals and arithmetic over other consts)."""
+        cache = self.__dict__.setdefault("_const_cache", {})
+        if path in cache:
+            return cache[path]
+        cache[path] = None
+        if _depth > 4:
+            return None
+        b = self.F.mir(path, follow_async=False)
+        if b is not None:
+            e = self.ret_expr(b, None, 0, frozenset())
+            if e is not None:
+                v = eval_expr(e, {})
+                if isinstance(v, int):
+                    cache[path] = v
+        elif self.F.hir(path) is not None:
+            # const items carry no MIR in the fact files: fold their typed HIR initialiser
+            import sym
+            v = sym.Evaluator(self.F).const_value(path)
+            if isinstance(v, int) and not isinstance(v, bool):
+                cache[path] = int(v)
+        return cache[path]
 
     def place(self, body, pl, subst, depth, seen):
         l = place_local(pl)
